@@ -1086,6 +1086,10 @@ func c06judge(c *ctx, sw *c06sweep, out map[int]c06out, answer string) {
 				res.Fail("oracle", caseLine, fmt.Sprintf("%s at byte %d: the operation waited out its timeout (%d ms) instead of reporting the loss", kind, k, op.ElapsedUs/1000), "waited-out-timeout")
 				continue
 			case op.SinceLoss > c06Prompt.Microseconds():
+				if !c06confirmSlow(c, sw, k) {
+					res.Count("slow once, prompt when re-run alone (machine load)")
+					break
+				}
 				res.Fail("oracle", caseLine, fmt.Sprintf("%s at byte %d: the operation returned %d ms after the transport reported the loss (declared slack %v)", kind, k, op.SinceLoss/1000, c06Prompt), "not-prompt")
 				continue
 			}
@@ -1115,6 +1119,8 @@ func c06judge(c *ctx, sw *c06sweep, out map[int]c06out, answer string) {
 				case l.Ident == "timeout" && lossHit:
 					res.Fail("oracle", caseLine, fmt.Sprintf("later operation %d waited out its timeout (%d ms) after %s at byte %d", li, l.ElapsedUs/1000, kind, k), "later-waited-out-timeout")
 					bad = true
+				case l.SinceLoss > c06Prompt.Microseconds() && !c06confirmSlow(c, sw, k):
+					res.Count("slow once, prompt when re-run alone (machine load)")
 				case l.SinceLoss > c06Prompt.Microseconds():
 					res.Fail("oracle", caseLine, fmt.Sprintf("later operation %d returned %d ms after it started on a lost connection", li, l.SinceLoss/1000), "later-not-prompt")
 					bad = true
@@ -1139,6 +1145,34 @@ func c06judge(c *ctx, sw *c06sweep, out map[int]c06out, answer string) {
 			res.Fail("correspondence", caseLine, fmt.Sprintf("implementation returned %s (%q), the model allows %s; request %s", op.Ident, op.Result, m[1], sw.req), "impl-vs-model")
 		}
 	}
+}
+
+// c06confirmSlow re-runs one case alone in a fresh child and says whether it is slow again: a
+// wall-clock measurement taken while 12 children compete for the machine is confirmed before it
+// is reported (a real delay, e.g. a sleep in the error path, reproduces every time). After a few
+// confirmations further slow cases are taken at face value.
+var c06slowConfirmed, c06slowRetries int
+
+func c06confirmSlow(c *ctx, sw *c06sweep, k int) bool {
+	if c06slowConfirmed >= 3 || c06slowRetries >= 12 {
+		return c06slowConfirmed > 0
+	}
+	c06slowRetries++
+	out := c06spawn(c, c06job{scen: sw.job.scen, kind: sw.job.kind, ks: []int{k}})
+	o, ok := out[k]
+	if !ok || o.died != "" {
+		return true
+	}
+	slow := o.obs.Op.SinceLoss > c06Prompt.Microseconds()
+	for _, l := range o.obs.Later {
+		if l.SinceLoss > c06Prompt.Microseconds() {
+			slow = true
+		}
+	}
+	if slow {
+		c06slowConfirmed++
+	}
+	return slow
 }
 
 func firstLine(s string) string {
